@@ -98,6 +98,14 @@ def build(ctx, tu, monotone):
         last = s_i
     w._splits = tuple(sp)
     w._last_reading = last
+    # the pre-state is written into private attributes: make sure the
+    # implementation still keeps its state there, otherwise the harness
+    # cannot be applied (inconclusive, not a violation)
+    if w.has_started() != (state == 'STARTED') or \
+            w.has_stopped() != (state == 'STOPPED') or \
+            len(w.splits) != n:
+        raise core.Unsupported('StopWatch no longer keeps its state in '
+                               '_state/_started_at/_stopped_at/_splits')
     return w
 
 
